@@ -13,7 +13,8 @@ SPEC = {
         "arbitrary process group (members may exit, fork, close pipes, ignore SIGTERM, setsid at any moment). Proved by an "
         "inductive invariant over all reachable states: the action is reported no later than deadline + termWait + killWait "
         "(C30_timeout_bound, = 1030 ms with the extracted durations) and after a timed-out return no group member is alive "
-        "nor can appear (C30_group_dead_after_timeout). The normal-exit clause is false: kernel-checked witness "
+        "nor can appear (C30_group_dead_after_timeout); the scripted runs the harness compares with the code are executions of that "
+        "system (C30_script_run_is_execution), so both theorems apply to them (C30_script_timeout). The normal-exit clause is false: kernel-checked witness "
         "C30_normal_exit_witness (a child that gave up the pipes survives), partial theorem C30_normal_exit_partial. The "
         "kernel (kill(-pgid) reaches every current member, SIGKILL cannot be ignored), real time/scheduling and pipe "
         "inheritance are assumptions of the model."
